@@ -1125,3 +1125,70 @@ func ruleL5c(c *Ctx) {
 		})
 	}
 }
+
+// ---------------------------------------------------------------- D12
+
+// ruleD12: Queue entries are immutable once linked, and never reused.
+func ruleD12(c *Ctx) {
+	R := c.R
+	p := c.P
+	R.Rule("D12", "a Queue entry is written once: entry.item only in the composite literal that makes the entry; entry.link only through the queue's own ends (q.back.link = <entry made here by &entry{…}>, q.front.link = <x>.link) — never through a local entry variable, so a removed entry keeps its item and its link (an iterator parked on it walks on from there) and no entry is linked twice", 2)
+	for _, f := range p.FuncsIn("pubsub") {
+		info := f.Info()
+		n := 0
+		walkNoLit(f.Body, func(x ast.Node) bool {
+			as, ok := x.(*ast.AssignStmt)
+			if !ok {
+				return true
+			}
+			for i, l := range as.Lhs {
+				se, ok := ast.Unparen(l).(*ast.SelectorExpr)
+				if !ok {
+					continue
+				}
+				s := info.Selections[se]
+				if s == nil || s.Kind() != types.FieldVal || !typeIs(s.Recv(), "pubsub", "entry") {
+					continue
+				}
+				n++
+				at := fmt.Sprintf("%s/entry.%s#%d", f.Name, se.Sel.Name, n)
+				pos := p.Position(as.Pos())
+				if se.Sel.Name != "link" {
+					R.Fail("D12", at, pos, fmt.Sprintf("%s assigns %s after the entry was made: an entry that an iterator may still be standing on changes its value", f.Name, exprStr(l)))
+					continue
+				}
+				// the base is one of the queue's ends
+				base, isSel := ast.Unparen(se.X).(*ast.SelectorExpr)
+				baseOK := false
+				if isSel {
+					if bs := info.Selections[base]; bs != nil && bs.Kind() == types.FieldVal && typeIs(bs.Recv(), "pubsub", "Queue") && (base.Sel.Name == "back" || base.Sel.Name == "front") {
+						baseOK = true
+					}
+				}
+				if !baseOK {
+					R.Fail("D12", at, pos, fmt.Sprintf("%s writes %s: the link of an entry reached through a local, i.e. possibly a removed one — an iterator parked on it loses its way to the rest of the queue (or is sent round again)", f.Name, exprStr(l)))
+					continue
+				}
+				valOK := false
+				why := ""
+				if i < len(as.Rhs) && len(as.Lhs) == len(as.Rhs) {
+					r := ast.Unparen(resolveLocal(f, as.Rhs[i]))
+					switch t := r.(type) {
+					case *ast.UnaryExpr:
+						if _, isLit := ast.Unparen(t.X).(*ast.CompositeLit); isLit && t.Op == token.AND {
+							valOK = true
+						}
+					case *ast.SelectorExpr:
+						if rs := info.Selections[t]; rs != nil && rs.Kind() == types.FieldVal && typeIs(rs.Recv(), "pubsub", "entry") && t.Sel.Name == "link" && base.Sel.Name == "front" {
+							valOK = true
+						}
+					}
+					// a variable with more than one definition (e := q.spare; if e == nil { e = &entry{} }) is not fresh
+					why = exprStr(as.Rhs[i])
+				}
+				R.Check(valOK, "D12", at, pos, nodeStr(as), fmt.Sprintf("%s links %s, which is not an entry made here by &entry{…} (nor the successor of the removed head): an entry that was in the queue before is linked again while an iterator may still stand on it", f.Name, why))
+			}
+			return true
+		})
+	}
+}
